@@ -480,4 +480,24 @@ def rule_merge(ctx):
                         "figures installed by annealing moves follow the tree's survival rule", lambda i: True, 3)
 
 
-RULES = [rule_merge, rule_record, rule_consume, rule_recipes, rule_root, rule_topo]
+def rule_backend(ctx):
+    """Shared with C11 (seed C01_5): for numpy arrays the pairwise steps of a tree are executed by the library's
+    own matmul-based einsum / tensordot (`implementation="auto"`), so the value a tree returns depends on the
+    planner's layouts, reshape guards and the executor's stage order just as C11 does."""
+    from .c11 import rule_layout, rule_exec, rule_pure
+
+    r = C.reuse_rule(ctx, rule_layout, "C11-LAYOUT", "C01-BACKEND",
+                     "the default pairwise implementation (matmul-based) keeps its own conventions", lambda i: True, 9)
+    for src, old in ((rule_exec, "C11-EXEC"), (rule_pure, "C11-PURE")):
+        for i in src(ctx).instances:
+            c = i.construct.replace(old, "C01-BACKEND")
+            if i.verdict == "violation":
+                r.violation(c, i.loc, i.reason, **i.detail)
+            elif i.verdict == "exempt":
+                r.exempt(c, i.loc, i.reason)
+            else:
+                r.ok(c, i.loc, i.reason)
+    return r
+
+
+RULES = [rule_backend, rule_merge, rule_record, rule_consume, rule_recipes, rule_root, rule_topo]
